@@ -4,6 +4,17 @@ import json, os, sys
 HERE = os.path.dirname(os.path.abspath(__file__))
 sys.path.insert(0, HERE)
 import manifest_data as md
+import props
+
+def technique(pid, c):
+    if "technique" in c: return c["technique"]
+    pr = props.PROPS.get(pid, {})
+    gens = ["tools/gen_tables.py (%s)" % ", ".join(pr["tables"])] if pr.get("tables") else []
+    gens += ["tools/%s.py" % g for g in pr.get("generators", [])]
+    base = "Lean 4 theorems (kernel-checked, #print axioms audited) about a hand-written executable model"
+    if gens:
+        base += "; finite tables / constants the model depends on are regenerated from /repo's source by translators on every run (%s) and the theorems re-checked against them" % ", ".join(gens)
+    return base + "; model tied to the code by a differential correspondence run (C++ harness under ASan+UBSan vs the compiled Lean model driver) with a Lean specification oracle; failing-input search when a proof or tie breaks"
 checks = []
 for pid, c in sorted(md.CHECKS.items()):
     checks.append(dict(
@@ -15,14 +26,14 @@ for pid, c in sorted(md.CHECKS.items()):
         engine="lean4-proof+correspondence",
         level_claimed=dict(category="proof", text=c["text"], design_ref=c.get("design_ref", "DESIGN.md section 8, " + pid)),
         level_note=c["note"],
-        technique=c.get("technique", "Lean 4 theorems about a hand-written model; model tied to the code by differential correspondence run"),
+        technique=technique(pid, c),
     ))
 m = dict(
     version=1,
     setup_cmd="python3 tools/setup.py",
     hooks=md.HOOKS,
     engines=[dict(name="lean4-proof+correspondence", path="/verif/tools/check.py",
-                  serves_properties=sorted(md.CHECKS), kind_free_text="Lean 4 kernel-checked theorems about executable models (lean/CCVerif), tables regenerated from the source (tools/gen_tables.py), differential correspondence harness (harness/*.cpp, ASan+UBSan) against the compiled model driver (lean/Driver)")],
+                  serves_properties=sorted(md.CHECKS), kind_free_text="Lean 4 kernel-checked theorems about executable models (lean/CCVerif), tables regenerated from the source (tools/gen_tables.py, gen_state.py, gen_consts.py, gen_convert.py, gen_lalr.py), differential correspondence harness (harness/*.cpp, ASan+UBSan) against the compiled model driver (lean/Driver)")],
     checks=checks,
     notes=md.NOTES,
     not_applicable=[dict(property_id=p, reason=r) for p, r in sorted(md.NOT_APPLICABLE.items())],
